@@ -35,6 +35,7 @@ type c11Script struct {
 	DstLen   int               `json:"dst_len,omitempty"`
 	ShortLen int               `json:"short_len,omitempty"` // misuse: length of the too-short argument
 	SpareCap int               `json:"spare_cap,omitempty"` // misuse: capacity beyond len of the short argument
+	Giant    string            `json:"giant,omitempty"`     // one call with an argument of 2^32 bytes or more (see giant.go)
 }
 
 type c11 struct{}
@@ -60,7 +61,7 @@ func c11SysN() int {
 
 func (c11) Plan(tier string) core.Plan {
 	if tier == "thorough" {
-		return core.Plan{Systematic: c11SysN(), Seeded: 2000000}
+		return core.Plan{Systematic: c11SysN() + len(giantVariants), Seeded: 2000000}
 	}
 	return core.Plan{Systematic: c11SysN(), Seeded: 150000}
 }
@@ -68,7 +69,7 @@ func (c11) Plan(tier string) core.Plan {
 func (c11) Meta() core.Meta {
 	return core.Meta{
 		Level: "exploration",
-		Rule: "systematic (enumerated completely every run): Seal and Open at every plaintext length 0..1100 with all arguments (nonce, aad, plaintext/ciphertext, dst with exact capacity) simultaneously flush against a PROT_NONE page after, then before; every aad length 0..300; every nonce length 1..300; every in-package amd64 kernel with every pointer argument guarded on both sides; misuse: Encrypt/Decrypt with src or dst of 0..15 bytes (tail-guarded, interior cap=len, interior cap>=16) on both paths, Open of 0..15-byte ciphertexts for tag sizes 12..16. " +
+		Rule: "systematic (enumerated completely every run): Seal and Open at every plaintext length 0..1100 with all arguments (nonce, aad, plaintext/ciphertext, dst with exact capacity) simultaneously flush against a PROT_NONE page after, then before; every aad length 0..300; every nonce length 1..300; every in-package amd64 kernel with every pointer argument guarded on both sides; misuse: Encrypt/Decrypt with src or dst of 0..15 bytes (tail-guarded, interior cap=len, interior cap>=16) on both paths, Open of 0..15-byte ciphertexts for tag sizes 12..16; thorough tier only: Seal and Open of messages with len(ciphertext) = 2^32+21, 2^32+3, 2^32 and of additional data of 2^32+7 bytes, the message ending at a guard page (fresh destination) and starting right after one (in place). " +
 			"seeded: random (op, tag size, nonce size, lengths, per-argument side and alignment, dst prefix). non-trivial = at least one argument was guard-placed; distinct = distinct (path, op, length classes, per-argument sides)",
 		Components: map[string]string{"sm4 Block/AEAD methods": "real", "amd64 assembly kernels (via verif-tagged wrappers)": "real", "portable Go path": "real", "allocator": "stub (guard-page arena: mmap + mprotect)", "arm64 assembly": "not run",
 			"oracle": "hardware page protection + canary bytes; runtime.Error.Addr() attributes the fault to an arena guard page"},
@@ -86,6 +87,10 @@ func allSides(side string) map[string]string {
 
 func (c11) Generate(idx int, r *core.Rand, tier string) core.Script {
 	i := idx
+	if tier == "thorough" && idx >= c11SysN() && idx < c11SysN()+len(giantVariants) {
+		// thorough tier only: arguments of 2^32 bytes and more (see giant.go)
+		return &c11Script{Asm: true, Op: "Giant", Giant: giantVariants[idx-c11SysN()], AEAD: aeadSpec{NonceSize: 12, TagSize: 16}}
+	}
 	sides := []string{"tail", "head"}
 	base := func(op string, side string) *c11Script {
 		return &c11Script{Asm: true, Op: op, AEAD: aeadSpec{Key: "000102030405060708090a0b0c0d0e0f", NonceSize: 12, TagSize: 16}, Seed: uint64(idx), Sides: allSides(side), AadLen: (idx * 7) % 40}
@@ -206,6 +211,17 @@ func (c11) Execute(sc core.Script, keep bool) *core.Result {
 		res.Steps = log.Steps()
 		res.LogLines = log.Lines
 	}()
+	if s.Giant != "" {
+		obs, skipped := runGiant(s.Giant, false, res, log)
+		res.Fingerprint, res.Nontrivial = "giant-"+s.Giant, !skipped
+		for _, o := range obs {
+			if o.Kind == "fault" || o.Kind == "canary" {
+				res.Violation = &core.Violation{Class: o.Kind, Op: "asm:" + strings.SplitN(o.Op, "(", 2)[0], Role: "giant", Param: s.Giant + ">=2^32", Detail: o.Op + ": " + o.Detail}
+				return res
+			}
+		}
+		return res
+	}
 	asm := s.Asm && AsmAvailable()
 	pathName := "portable"
 	if asm {
@@ -415,6 +431,9 @@ var _ cipher.Block
 
 func (c11) Shrinks(sc core.Script) []core.Script {
 	s := sc.(*c11Script)
+	if s.Giant != "" {
+		return nil // a single enumerated case: nothing to minimise
+	}
 	cp := func() *c11Script {
 		raw, _ := json.Marshal(s)
 		var c c11Script
